@@ -115,12 +115,48 @@ def doSim (ws : List String) : Option String := do
     pure ("x " ++ out.x.toText ++ " y " ++ out.y.toText)
   | _ => none
 
+/-- `memo P X J Ru F f1 f2 …`: a sequence of horizon requests on one memo; per request the returned matrices -/
+def doMemo (ws : List String) : Option String := do
+  let (ms, ws) ← pMats 4 ws
+  let (_, ws) ← pKey "F" ws
+  let fs ← ws.mapM (·.toNat?)
+  match ms with
+  | [Pm, X, J, Ru] =>
+    let outs := runRequests Pm (expansionGen X J Ru) [] fs
+    pure (" | ".intercalate (outs.map (fun l => " ; ".intercalate (l.map QMat.toText))))
+  | _ => none
+
+/-- `hist a<p> s d l c k …` on one object that starts solved with parameterisation 0: assign p / solve / observe in deviations /
+observe in levels / copy / observe every copy (deviation then level).  Reply: per observation `<params in force>:<solution of>:<D|L>` -/
+def doHist (ws : List String) : Option String := do
+  let ops ← ws.mapM fun w =>
+    if w == "s" then some [ObjOp.solve] else if w == "d" then some [ObjOp.obs true] else if w == "l" then some [ObjOp.obs false]
+    else if w == "c" then some [ObjOp.copy]
+    else if w.startsWith "k" then (w.drop 1).toNat?.map (fun n => (List.range n).flatMap (fun k => [ObjOp.obsCopy k true, ObjOp.obsCopy k false]))
+    else if w.startsWith "a" then (w.drop 1).toNat?.map (fun p => [ObjOp.assign p]) else none
+  let outs := runObj (fun (p : Nat) => (p, false)) (fun (s : Nat × Bool) => (s.1, true)) ⟨0, (0, false), []⟩ ops.flatten
+  pure (",".intercalate (outs.map fun (p, d, s) =>
+    toString p ++ ":" ++ toString s.1 ++ ":" ++ (if d then "D" else "L") ++ (if s.2 == d then "" else "!")))
+
+/-- `plan n M D` -> `i:j,…` (model variant : data variant per output) or `err:bad` -/
+def doPlan (ws : List String) : Option String := do
+  let ns ← ws.mapM (·.toNat?)
+  match ns with
+  | [n, M, D] =>
+    match variantPlan n M D with
+    | some l => pure (",".intercalate (l.map fun (i, j) => toString i ++ ":" ++ toString j))
+    | none => pure "err:bad"
+  | _ => none
+
 def step (line : String) : String :=
   let r := match words line with
     | "vec" :: ws => doVec ws
     | "cert" :: ws => doCert ws
     | "stab" :: ws => doStab ws
     | "sqtri" :: ws => doSqTri ws
+    | "memo" :: ws => doMemo ws
+    | "hist" :: ws => doHist ws
+    | "plan" :: ws => doPlan ws
     | "sim" :: ws => doSim ws
     | _ => none
   r.getD "bad-op"
